@@ -43,6 +43,10 @@ pub fn contexts() -> Vec<(Vec<u8>, Vec<u8>)> {
 		(domains::b("//"), domains::b("")),
 		(domains::b("s://"), domains::b("")),
 		(domains::b("//"), domains::b("/a:b//c?@:#@:")),
+		// an empty path: the authority is directly followed by a query / fragment holding '@' ':' '/'
+		(domains::b("s://"), domains::b("?@:/")),
+		(domains::b("//"), domains::b("#@:/")),
+		(domains::b("s://"), domains::b("/@:")),
 	]
 }
 
@@ -110,7 +114,7 @@ pub fn run(ctx: &Ctx) -> Report {
 	let level = ctx.pick(0u8, 1u8);
 	let max_depth = ctx.pick(6usize, 12usize);
 	let mut jobs: Vec<(Family, Vec<u8>, Vec<u8>)> = Vec::new();
-	for f in Family::BOTH {
+	for f in Family::active() {
 		for (p, s) in contexts() {
 			jobs.push((f, p, s));
 		}
